@@ -267,7 +267,11 @@ def rand_text(rng, n, wide=True):
 
 def rand_bytes_case(rng):
     """-> (bytes, bucket)"""
-    k = rng.randrange(8)
+    k = rng.randrange(9)
+    if k == 8:
+        # text that starts with (or is) a byte order mark / other code points codecs like to treat specially
+        lead = rng.choice(['\ufeff', '\ufeff', '\ufffe', '\u200b', '\x00', '\ufeff\ufeff'])
+        return (lead + rand_text(rng, rng.randint(0, 5))).encode('utf-8'), 'bom-or-special-lead'
     if k == 0:
         return b'', 'empty'
     if k in (1, 2):
@@ -641,6 +645,8 @@ class Peer:
         self.cch.set_state(self.cch.OPEN)
         self.con._channels[1] = self.cch
         self.frame_max = self.pch.basic._max_frame_size
+        # what was negotiated, computed from the offer (not read back from the object under test): the broker enforces it
+        self.negotiated = min(frame_max or 131072, 131072)
 
     def broker(self, rng, frames, cid):
         """marshal what the publisher wrote, re-parse it with the monitor's own envelope parser, turn
@@ -650,6 +656,12 @@ class Peer:
         data = b''.join(pframe.marshal(f, cid) for f in frames)
         parsed, residual = wire.split_frames(data)
         assert not residual
+        too_big = [len(p[3]) for p in parsed if p[0] == 3 and len(p[3]) > self.negotiated]     # body frames (tiny test sizes cannot hold a method frame)
+        if too_big:
+            # a real broker answers 501 FRAME_ERROR and closes the connection: nothing is delivered
+            self.refused = 'frame of %d bytes on the wire, negotiated frame_max is %d' % (too_big[0], self.negotiated)
+            return b''
+        self.refused = None
         ch, publish = wire.decode(parsed[0][3])
         deliver = self.spec.Basic.Deliver(consumer_tag='ct', delivery_tag=7, redelivered=False,
                                           exchange=publish.exchange, routing_key=publish.routing_key)
@@ -676,6 +688,8 @@ class Peer:
             i += n
         if buf:
             return None, 'residual %d bytes' % len(buf)
+        if getattr(self, 'refused', None):
+            return None, 'the broker refused the publish: ' + self.refused
         # _build_message would wait for ever for body bytes that were never sent: look first
         announced = [f.body_size for f in self.cch._inbound if f.name == 'ContentHeader']
         carried = sum(len(f.value) for f in self.cch._inbound if f.name == 'ContentBody')
